@@ -23,7 +23,7 @@ ANCHORS = [
     "raggedarray/raggedslice.py::ragged_slice", "mixin.py::NPSIndexable.__getitem__", "raggedarray/__init__.py::RaggedArray._as_padded_matrix",
 ]
 OPS = ["concat0", "concat1", "like", "padded", "nonzero", "where", "subset", "maskidx", "rslice_ra", "rslice_1d", "rslice_2d", "nps"]
-FLOOR_TAGS = ["op:" + o for o in OPS] + ["ends:none", "ends:inside", "ends:negative", "ends:beyond", "where:xy", "where:xs", "where:xx", "operands:same-object", "where:scalar-other-kind", "mask:allfalse", "mask:alltrue",
+FLOOR_TAGS = ["op:" + o for o in OPS] + ["ends:none", "ends:inside", "ends:negative", "ends:beyond", "where:xy", "where:xs", "where:xx", "operands:same-object", "where:scalar-other-kind", "where:mask-not-bool", "mask:allfalse", "mask:alltrue",
                                          "operand:norows", "operand:allempty", "side:left", "side:right", "recv:fresh", "recv:lazyrows", "recv:lazycols+2", "starts:none"]
 FLOOR_MONITORS = ["c08:compare", "c08:arguments-unchanged"]
 FP_STRICT = True       # a floating-point event inside the library that the dense computation does not have is a violation (shard.FpMonitor)
@@ -213,7 +213,10 @@ def run(case):
             return violated("%s called a second time with the same argument objects gives %s" % (desc, repr(a2) if not a2.ok else short(a2.value, 160)), tags + ["second-call-differs"])
         return held(tags, nontrivial) if unchanged() else violated("%s modified its operand" % desc, tags)
     # operations with a boolean ragged mask
-    m = np.array(case["mask"], dtype=bool)
+    # where() takes the truth value of the mask cells (numpy's rule): flags kept as 0/1 integers, counts, the operand itself, floats
+    m = np.array(case["mask"], dtype=case.get("mask_dtype", "bool") if op == "where" else bool)
+    if m.dtype.kind != "b":
+        tags.append("where:mask-not-bool")
     mrows = gen.split_rows(m, lens)
     mask, _ = c02.build_receiver(case.get("mask_recv", "fresh"), m, lens)
     if tot and not m.any():
@@ -346,6 +349,9 @@ def gen_case(rng, tier, op=None, lens=None, dtype=None, recv=None):
         c["mask"] = [rng.random() < p for _ in range(tot)]
         c["mask_recv"] = rv() if op != "rslice_ra" else "fresh"
         if op == "where":
+            if rng.random() < 0.3:
+                c["mask_dtype"] = rng.choice(["int64", "uint8", "int32", "float64", "int8"])
+                c["mask"] = [(rng.choice([1, 1, 2, 3, min(tot + 5, 120), 255 if c["mask_dtype"] == "uint8" else -1]) if b else 0) for b in c["mask"]]
             c["form"] = rng.choice(["xy", "xs", "xy", "xs", "xx"])
             if c["form"] == "xy":
                 c["y"] = spec(rng, lens_, dtype, rv())
